@@ -17,6 +17,6 @@ CONSTANTS
   PredCols = {1, 2}
   Modes = {"batch", "reader"}
   MaxPreds = 1
-INVARIANTS D1_Prefix D1_Complete D2_InBounds D3_Bound D4_Covered
+INVARIANTS D1_Prefix D1_Complete D2_InBounds D3_Bound D4_Covered D4_MaskChunks
 PROPERTIES D3_Sufficient D6_Batches
 CHECK_DEADLOCK FALSE
